@@ -243,12 +243,14 @@ NOT_APPLICABLE = {
 
 # what later sessions put under contract, appended to the level texts above
 TEXT_ADDENDA = {
+    "C10": " The command an accepted `rp` wraps is never itself an `rp` (parse_rp_command), which bounds the handler's recursion at depth two - defects 22 / 23; hostile lines whose failure mode is an abort (nested wrappers, allocations of a client-chosen size) are run by the sweep in child processes.",
+    "C20": " The published $connections value after the request is the counter after the decrement (Client::left, unit sessions).",
     "C03": " Delivery: the real try_send loops (notify_watchers, the removed-notification of remove_value) are verified over a per-channel model - every registration of the key is handed the changed / changed-version (resp. removed) line exactly once, a channel without a registration for the key nothing (unit delivery); selecting a database again ends no subscription (unit sessions); a write that wins a newer resolution is notified (unit consensus).",
     "C12": " The declutter step IS verified (unit rotation: the real remove_old_db_files over a directory token - with ten or more rotated files exactly the nine newest remain, in their order, with fewer nothing is deleted). Oplog::try_write_op_log: an accepted record is the last record of the live stream also when the write rolled the file over.",
-    "C16": " The DISCARD step itself is verified (unit rotation: the real Oplog::clean_op_log_metadata_files over a directory token - afterwards the live oplog file, the flag file and every rotated `*.op` file are gone, nothing else is deleted).",
+    "C16": " The DISCARD step itself is verified (unit rotation: the real Oplog::clean_op_log_metadata_files over a directory token - afterwards the live oplog file, the flag file and every rotated `*.op` file are gone, nothing else is deleted). create_db keeps database identifiers distinct (unit ids).",
     "C15": " The two fan-out functions register an operation for exactly the members they hand it to (never this node itself), and the ack handler's closure is the accounting step whatever the node's role.",
-    "C13": " Every registered arbiter is handed a notice once (real loop, unit delivery); a key in conflict survives a restart (loader, unit snapshot); the resolved value leaves the node as an ordinary write line (unit outbox).",
-    "C07": " Also: on every path of start_election some time is spent asleep between announcing the candidacy and claiming (explicit clock token), and the closures of set-primary / set-secoundary tag the link with the last announced member and role.",
+    "C13": " Every registered arbiter is handed a notice once (real loop, unit delivery); a key in conflict survives a restart (loader, unit snapshot); the resolved value leaves the node as an ordinary write line (unit outbox). The notice of a first conflict names the version the key HOLDS (with op id, database, key, old and refused value), so that the resolution is stored above every version a client can have read before the conflict.",
+    "C07": " Also: on every path of start_election some time is spent asleep between announcing the candidacy and claiming (explicit clock token), and the closures of set-primary / set-secoundary tag the link with the last announced member and role. `election alive` changes nothing on the node that receives it (ElectionActive arm).",
     "C02": " A refused set-safe leaves nothing on the replication channel (unit outbox); get-safe reports the stored version also for a tombstone.",
     "C08": " A refused login leaves the whole selection - database and user - unchanged (unit sessions); a refused command leaves nothing on the replication channel (unit outbox).",
     "C04": " Also under contract: db_ops::create_db (unit ids: a database is created by the primary or over the link tagged as the primary's, with the name, strategy and token the line carries; an existing name or any other sender is refused and changes nothing) and every line of replicate_request (snapshot / replicate-snapshot name the databases the command names, create-db carries name, token and strategy, create-user / set-permissions leave as writes of their keys).",
@@ -257,5 +259,5 @@ TEXT_ADDENDA = {
     "C05": " The receiving side of `create-db` is verified (create_db, unit ids). The live emitter (replicate_request, get_replicate_message) and the receiving parser of `replicate` are under contract too: the layout `db key VERSION value` is what one writes and the other reads.",
     "C06": " The snapshot DRIVER is verified too (unit driver): a snapshot request for an existing database is queued with its mode and answered Ok, one for an unknown database is refused; snapshot_all_pendding_dbs (real while-let loop, invariant) saves the key map first and then takes exactly the requested snapshots - one per request, each database in its own mode, vanished databases skipped - and leaves the queue empty.",
     "C01": " process_request hands the parser the received line minus only its line feeds (unit outbox).",
-    "C17": " An HTTP request's session is released when the request ends, whatever its commands answered (process_commands, unit http).",
+    "C17": " An HTTP request's session is released when the request ends, whatever its commands answered (process_commands, unit http). A database built from loaded data counts no session (create_db_from_value_hash, body verified); the value published under $connections is an explicit token written only from the counter as it is at that call: Client::left and release_previous_db publish the counter AFTER it moved.",
 }
